@@ -488,7 +488,11 @@ impl Iter {
                         uid += 1;
                     }
                 }
-                plan.sort_by_key(|i| matches!(i.mode, Mode::FuncEntry | Mode::FuncExit));
+                // function-level probes last - or (1 plan in 2) wherever they fell: later ordinary injections in that function then join the
+                // entry / exit body on BOTH paths (finish_instr closes the instruction mode only)
+                if rng.bool() {
+                    plan.sort_by_key(|i| matches!(i.mode, Mode::FuncEntry | Mode::FuncExit));
+                }
             }
             plans.push(plan);
         }
@@ -725,6 +729,8 @@ fn lower_set_and_inject(it: &mut ComponentIterator, inj: &Inj) {
     for o in lower::probe_ops_for(inj) {
         it.inject(o);
     }
+    // closes the instruction-level mode (a function-level mode stays active, exactly as on a module iterator)
+    it.finish_instr();
 }
 
 fn bytes_hex(b: &[u8]) -> String {
